@@ -76,8 +76,11 @@ type WorldSpec struct {
 	LogLevel       string        `json:"log_level,omitempty"`    // "", error, debug
 	// HandlerMode: requests are served by one long-lived oidcHandler per filter instead of through
 	// ExtAuthZFilter.Check (component level; single-filter worlds without trigger rules only).
-	HandlerMode bool      `json:"handler_mode,omitempty"`
-	IdPs        []IdPSpec `json:"idps"`
+	HandlerMode bool `json:"handler_mode,omitempty"`
+	// Replicas: number of service replicas of the deployment (default 1). They load the same configuration
+	// file and share the Redis servers; each has its own memory (in-memory store, caches, TLS pool).
+	Replicas int       `json:"replicas,omitempty"`
+	IdPs     []IdPSpec `json:"idps"`
 }
 
 type IdPSpec struct {
